@@ -124,7 +124,7 @@ func init() {
 	register("C12", func(e *Env) {
 		renderPrelude()
 		e.perShard = 60
-		e.rep.Rule = "19 recording helpers (0-3 fixed parameters of several types, +/- trailing options map, +/- helper context by struct or interface type, +/- variadic tail of interface{} or string) x every call shape of 0..3 (thorough: 0..4) arguments drawn from 11 argument kinds, +/- a block; expectation = the declarative binding (positional, nil -> zero value, omitted trailing map/helper context supplied, variadic tail collects the rest; too many / not assignable / more than two missing => an error naming the call and NO invocation); observed through the helpers' own log; plus evaluation-order probes with counting arguments; distinct by call"
+		e.rep.Rule = "19 recording helpers (0-3 fixed parameters of several types, +/- trailing options map, +/- helper context by struct or interface type, +/- variadic tail of interface{} or string) x every call shape of 0..3 (thorough: 0..4) arguments drawn from 11 argument kinds, +/- a block; expectation = the declarative binding (positional, nil -> zero value, omitted trailing map/helper context supplied, variadic tail collects the rest; too many / not assignable / more than two missing => an error naming the call and NO invocation); observed through the helpers' own log; plus evaluation-order probes with counting arguments, and sequences in which a helper writes into its auto-supplied options map before other calls omit theirs; distinct by call"
 		binds := []Bind{{"t0", vT0("zero")}, {"pt0", vPtr(vT0("pt"))}, {"fl", vFloat("1.5")}, {"h", vHTML("<i>")}, {"n", vInt(3)},
 			{"c1", vGo(101, vInt(1), vStr("x"))}, {"c2", vGo(101, vInt(2), vInt(5))}, {"c3", vGo(101, vInt(3), vBool(true))}}
 		for sg := 0; sg <= 18; sg++ {
@@ -217,6 +217,29 @@ func init() {
 				if l.Id == 106 && o.Class != "OK" {
 					e.Violate("c12-reject", fmt.Sprintf("%s failed (%s) but the helper was invoked", t.tmpl, o.Msg), map[string]interface{}{"case": c, "observed": o})
 				}
+			}
+		}
+		// an omitted trailing options map is a FRESH empty map for every call: a helper that writes
+		// into the map it was given must not be visible to the next call that omits its options
+		for _, t := range []string{
+			"<%= rec17() %>|<%= mut() %>|<%= rec17() %>|<%= rec4(\"a\") %>|<%= mut() %>|<%= rec6(\"b\") %>",
+			"<%= mut() %><%= mut({a: 1}) %>|<%= rec17() %>",
+			"<%= for (i) in [1, 2] { %><%= mut() %><%= rec17() %><% } %>",
+		} {
+			c := RCase{Tmpl: t, Binds: append(append([]Bind{}, binds...), Bind{"mut", vGo(108)})}
+			o := e.addRenderCase("fresh-options", c)
+			emptyMap := show(map[string]interface{}{})
+			for _, l := range o.Log {
+				if l.Id == 106 {
+					for _, a := range l.Args[1:] {
+						if strings.HasPrefix(a, "{") && a != emptyMap {
+							e.Violate("c12-bind", fmt.Sprintf("%s: a call that omits its options map received a map already holding another call's writes: %v", t, l.Args), map[string]interface{}{"case": c, "observed": o})
+						}
+					}
+				}
+			}
+			if o.Class != "OK" {
+				e.Violate("c12-bind", fmt.Sprintf("%s: %s %s", t, o.Class, o.Msg), map[string]interface{}{"case": c, "observed": o})
 			}
 		}
 		// first result is the value; a non-nil trailing error fails the render
